@@ -687,3 +687,58 @@ func init() {
 		return fr.i.newError("vp: proof of work check failed")
 	})
 }
+
+// ---- block validity: per-block symbolic predicates ----
+// blockchain.CheckBlockSanity and ValidateWitnessCommitment are decided
+// by btcd (merkle root, witness commitment maths); what is checked in
+// neutrino is that both are called on the right block and honoured.  Each
+// distinct *wire.MsgBlock gets two free symbolic booleans.
+
+func (i *interpreter) blockPred(kind string, msgBlock *value) value {
+	key := fmt.Sprintf("blkpred:%s:%p", kind, msgBlock)
+	if v, ok := i.ext[key]; ok {
+		return v.(value)
+	}
+	n := len(i.ext)
+	t := i.p.st().Var(fmt.Sprintf("%s#%d", kind, n), BoolSort)
+	i.logVar(fmt.Sprintf("%s%d", kind, n), "bool", t, nil, 0)
+	i.ext[key] = value(t)
+	return t
+}
+
+func (i *interpreter) msgBlockOf(blk *value) *value {
+	// btcutil.Block{msgBlock *wire.MsgBlock, ...}
+	bt := i.namedType("github.com/btcsuite/btcd/btcutil/v2", "Block")
+	return (*blk).(structure)[fieldIndex(bt, "msgBlock")].(*value)
+}
+
+func init() {
+	pred := func(kind string) externalFn {
+		return func(fr *frame, a []value) value {
+			mb := fr.i.msgBlockOf(ptrArg(a[0]))
+			fr.i.callLog()[kind]++
+			v := fr.i.blockPred(kind, mb)
+			ok := false
+			switch x := v.(type) {
+			case bool:
+				ok = x
+			case *Term:
+				ok = fr.i.p.branch(x, kind)
+			}
+			if ok {
+				return iface{}
+			}
+			return fr.i.newError("vp: " + kind + " failed")
+		}
+	}
+	reg("github.com/btcsuite/btcd/blockchain.CheckBlockSanity", pred("blockSane"))
+	reg("github.com/btcsuite/btcd/blockchain.ValidateWitnessCommitment", pred("witnessOK"))
+	unwrap := func(v value) *value {
+		if it, ok := v.(iface); ok {
+			v = it.v
+		}
+		return ptrArg(v)
+	}
+	vpExternals["vpBlockSane"] = func(fr *frame, a []value) value { return fr.i.blockPred("blockSane", unwrap(a[0])) }
+	vpExternals["vpBlockWitnessOK"] = func(fr *frame, a []value) value { return fr.i.blockPred("witnessOK", unwrap(a[0])) }
+}
